@@ -212,9 +212,20 @@ def _worker(args):
                 signal.setitimer(signal.ITIMER_REAL, PATH_TIMEOUT_S)
             n, d = replay_path(make_adapter, exp[ik], [(a, exp[k]) for a, k in full], obs_out=obs)
         except PathTimeout:
-            acts = [a for a, _ in full]
-            n, d = 0, Divergence('hang', len(acts) - 1, acts, None, None, [],
-                                 'a call into the implementation did not return within %ds' % PATH_TIMEOUT_S)
+            # a machine under heavy load can be that slow: the path gets a second, longer chance
+            # before it is called a hang
+            if can_alarm:
+                signal.setitimer(signal.ITIMER_REAL, 0)
+            obs = [] if keep_obs else None
+            try:
+                if can_alarm:
+                    signal.setitimer(signal.ITIMER_REAL, 3 * PATH_TIMEOUT_S)
+                n, d = replay_path(make_adapter, exp[ik], [(a, exp[k]) for a, k in full], obs_out=obs)
+            except PathTimeout:
+                acts = [a for a, _ in full]
+                n, d = 0, Divergence('hang', len(acts) - 1, acts, None, None, [],
+                                     'a call into the implementation did not return within %ds, nor within '
+                                     '%ds when the path was replayed again' % (PATH_TIMEOUT_S, 3 * PATH_TIMEOUT_S))
         finally:
             if can_alarm:
                 signal.setitimer(signal.ITIMER_REAL, 0)
